@@ -173,9 +173,9 @@ def run(tier, seed):
       md['s'] = 'x'
       return md
     def load(self, md):
-      if 's' not in md:
+      if md.get('s', default=None) != 'x':
         from vizier.interfaces import serializable
-        raise serializable.HarmlessDecodeError('no state')
+        raise serializable.HarmlessDecodeError('no usable state')
 
   pcases, pobjs = [], []
   for n in range(N // 4):
@@ -200,13 +200,21 @@ def run(tier, seed):
         extra.complete(vz.Measurement({'m': 2.0}))
         sup.AddTrials([extra])
       rebuilt = kind == 'partial' and r.random() < 0.4
+      lost = False
       if rebuilt:
+        if hist and r.random() < 0.35:
+          # the designer's stored state becomes unusable (e.g. written by another version) while the policy's own
+          # id cache is intact: the policy must start a new designer AND give it every completed trial again
+          delta = vz.MetadataDelta()
+          delta.on_study.ns('designer_policy_v0').ns('designer')['s'] = 'written by another version'
+          sup._UpdateMetadata(delta)
+          lost = True
         pol = mk()   # state comes back from study metadata written by the previous suggest
       world = [(t.id, 'C' if t.status == vz.TrialStatus.COMPLETED else 'A' if t.status == vz.TrialStatus.ACTIVE else 'R') for t in sup.trials]
       mx = max([t.id for t in sup.trials] + [0])
       problem_now = sup.GetStudyConfig()
       sup.SuggestTrials(pol, count=r.choice([1, 2]))
-      hist.append((False, mx, world))
+      hist.append((lost, mx, world))
     got = list(log)
     pobjs.append((kind, hist, got))
     if kind == 'fresh':
@@ -216,7 +224,9 @@ def run(tier, seed):
     rep.case({'policy': kind, 'history': hist, 'updates': got}, len(hist) > 1)
     rep.count('policy_' + kind)
     delivered = {}
-    for k, ((_, mx, world), (d, a)) in enumerate(zip(hist, got)):
+    for k, ((lost_k, mx, world), (d, a)) in enumerate(zip(hist, got)):
+      if lost_k:
+        delivered = {}      # a new designer instance: it has seen nothing
       if sorted(a) != sorted(i for i, s in world if s == 'A'):
         viol('policy update does not contain exactly the ACTIVE trials', {'policy': kind, 'history': hist, 'request': k}, False)
       comp = sorted(i for i, s in world if s == 'C')
@@ -308,7 +318,9 @@ def service_level(rep, tier, r, known, Recorder, viol):
     rep.case({'hosted_history': hist, 'updates': got}, len(hist) > 1)
     rep.count('hosted_deleted_newest' if deleted_newest else 'hosted_plain')
     delivered = {}
-    for k, ((_, mx, world), (d, a)) in enumerate(zip(hist, got)):
+    for k, ((lost_k, mx, world), (d, a)) in enumerate(zip(hist, got)):
+      if lost_k:
+        delivered = {}      # a new designer instance: it has seen nothing
       if sorted(a) != sorted(i for i, s in world if s == 'A'):
         viol('hosted policy update does not contain exactly the ACTIVE trials', {'history': hist, 'request': k, 'got': a, 'calls': calls}, False)
       for i in d:
